@@ -8,7 +8,7 @@ MANIFEST = dict(
    note="Trusted: Lean kernel; axioms propext/Classical.choice/Quot.sound only; the Go harness, hex line protocol and comparer. The model is a hand transcription validated on generated cases. Issue.msg stands for mapper(issue) (formatter output for empty messages is not modelled). Paths are string keys and non-negative ints; other element types and negative ints are outside the model. FormatError's reserved key \"_errors\" is an open known finding.",
    design="DESIGN.md §5 C19; notes/C19.md")
 
-MODULES = ["Gozod.Proofs.C19"]
+MODULES = ["Gozod.Proofs.C19", "Gozod.Proofs.C19Dot"]
 THEOREMS = ["Gozod.C19." + t for t in [
     "c19_flatten_count", "c19_flatten_form", "c19_flatten_field", "c19_flatten_place",
     "c19_tree_count", "c19_tree_place",
@@ -16,6 +16,8 @@ THEOREMS = ["Gozod.C19." + t for t in [
     "c19_format_place_partial", "c19_format_place_full_false",
     "c19_prettify_count", "c19_prettify_place", "c19_dotpath_injective_partial", "c19_dotpath_injective_full_false", "dotpath_empty_key",
     "c19_nonempty", "c19_nonempty_format_full_false",
+    "esc_split", "segDotEsc_split", "c19_dotpath_esc_injective", "c19_dotpath_esc_nonempty",
+    "dotPath_eq_esc", "c19_dotpath_injective_escfree", "plainPath_escFree", "dotpath_backslash_outside",
     "legacy_format_drops_union", "legacy_format_drops_element", "legacy_format_drops_unknown_code",
     "legacy_format_misfiles_nested", "legacy_dotpath_conflates", "legacy_nonempty_false",
 ]]
@@ -60,6 +62,11 @@ def features(op):
         if code in ("invalid_key", "invalid_element"):
             f.add("element-with-nested" if ni else "element-without-nested")
         if depth > 0 and n > 0: f.add("nested-nonempty-path")
+        if depth == 0:
+            for sg in segs:
+                if sg.startswith("k"):
+                    kb = bytes.fromhex(sg[1:])
+                    if kb == b"" or b'"' in kb or b"\\" in kb: f.add("key-needs-escaping")
         if n and segs[0].startswith("k"):
             k = bytes.fromhex(segs[0][1:]).decode("utf-8", "replace")
             if k and (k[0].isdigit() or not re.fullmatch(r"[A-Za-z0-9_]*", k)): f.add("first-key-needs-brackets")
@@ -91,6 +98,7 @@ def key1(op, a, p):
             if cls in f: return "fmt:" + cls
         return "fmt:other"
     if p == "pretty":
+        if "key-needs-escaping" in f: return "pretty:key-needs-escaping"
         if "first-key-needs-brackets" in f: return "pretty:first-key-needs-brackets"
         return "pretty:other"
     return p + ":other"
